@@ -4,7 +4,7 @@
    re-check on every run that the model is what the code says now. *)
 From Coq Require Import String ZArith List Bool Lia.
 Import ListNotations.
-From Verif Require Import Base.PyValue Model.PyMini Model.Cursor Gen.SrcCursor.
+From Verif Require Import Base.PyValue Model.PyMini Model.Cursor Model.PrimsApi Gen.SrcCursor.
 Open Scope string_scope.
 Open Scope Z_scope.
 
@@ -76,5 +76,190 @@ Proof. intros [r p n a it]; reflexivity. Qed.
 Theorem rownumber_src : forall c : cur pv,
   call_method call_ref prim cursor_rownumber (flds c) [] = Ok (flds c, PInt (pos pv c)).
 Proof. intros [r p n a it]; reflexivity. Qed.
+
+(* ------------------------------------------------------------------------------------------------------------
+   The state-changing half: Cursor.__init__, Cursor.execute, Cursor.connection; Column's sequence protocol.
+
+   [obj ctx d c] is the attribute dictionary of a Cursor object in the order __init__ creates it: the connection,
+   the description of the last result, and the four attributes of the model state c. *)
+Definition obj (ctx d : pv) (c : cur pv) : env :=
+  [("_context", ctx); ("_description", d); ("_rows", rows_pv (rows pv c)); ("_rowcount", PInt (count pv c));
+   ("_pos", PInt (pos pv c)); ("arraysize", PInt (arraysize pv c))].
+
+(* a new object has no attributes; __init__ creates the model's initial state *)
+Theorem init_src : forall conn : pv,
+  call_method call_ref prim cursor_init [] [conn] = Ok (obj conn PNone (@init pv), PNone).
+Proof. reflexivity. Qed.
+
+Theorem connection_src : forall ctx d c,
+  call_method call_ref prim cursor_connection (obj ctx d c) [] = Ok (obj ctx d c, ctx).
+Proof. intros ctx d [r p n a it]; reflexivity. Qed.
+
+Theorem description_src : forall ctx d c,
+  call_method call_ref prim cursor_description (obj ctx d c) [] = Ok (obj ctx d c, d).
+Proof. intros ctx d [r p n a it]; reflexivity. Qed.
+
+(* the fetch methods on the full object: the two extra attributes are not touched *)
+Theorem fetchone_obj : forall ctx d (c : cur pv),
+  call_method call_ref prim cursor_fetchone (obj ctx d c) [] =
+  Ok (obj ctx d (fst (fetchone pv c)), res_pv (snd (fetchone pv c))).
+Proof. intros ctx d [r p n a it]. destruct r as [[|x t]|]; reflexivity. Qed.
+
+Theorem fetchmany_obj : forall ctx d (c : cur pv) (size : option Z),
+  call_method call_ref prim cursor_fetchmany (obj ctx d c) [match size with None => PNone | Some n => PInt n end] =
+  Ok (obj ctx d (fst (fetchmany pv c size)), res_pv (snd (fetchmany pv c size))).
+Proof.
+  intros ctx d [r p n a it] size. destruct r as [l|]; [|destruct size; reflexivity].
+  destruct size as [k|]; cbn -[slice_list py_take py_drop];
+    rewrite slice_take, slice_drop; reflexivity.
+Qed.
+
+Theorem fetchall_obj : forall ctx d (c : cur pv),
+  call_method call_ref prim cursor_fetchall (obj ctx d c) [] =
+  Ok (obj ctx d (fst (fetchall pv c)), res_pv (snd (fetchall pv c))).
+Proof. intros ctx d [r p n a it]. destruct r as [l|]; reflexivity. Qed.
+
+(* ---- execute.  The parser, the compiler and the executor are opaque callables, found in the generated [refs]
+   table by their qualified names.  [pipeline ctx q p] is what the three calls in the source amount to: parse the
+   query unless it is already an AST node, compile it against the connection with the parameters, execute it; an
+   exception of any stage propagates. *)
+Record exec_refs := { kNode : nat; kIsinstance : nat; kParse : nat; kCompile : nat; kExec : nat }.
+(* the numbers are those of the generated table *)
+Definition exec_refs_ok (K : exec_refs) : Prop :=
+  ref_of refs "beanquery.parser.ast.Node" = Some (kNode K) /\
+  ref_of refs "builtins.isinstance" = Some (kIsinstance K) /\
+  ref_of refs "beanquery.parser.parse" = Some (kParse K) /\
+  ref_of refs "beanquery.compiler.compile" = Some (kCompile K) /\
+  ref_of refs "beanquery.query_execute.execute_query" = Some (kExec K).
+
+Definition pipeline (K : exec_refs) (ctx q p : pv) : PyMini.res pv :=
+  bind (do_call call_ref (PRef (kIsinstance K)) [q; PRef (kNode K)]) (fun isnode =>
+  bind (pv_truthy isnode) (fun b =>
+  bind (if b then Ok q else do_call call_ref (PRef (kParse K)) [q]) (fun ast =>
+  bind (do_call call_ref (PRef (kCompile K)) [ctx; ast; p]) (fun compiled =>
+  do_call call_ref (PRef (kExec K)) [compiled])))).
+
+Ltac refs_known HK :=
+  match type of HK with exec_refs_ok ?K =>
+    destruct K as [k0 k1 k2 k3 k4]; destruct HK as (H0 & H1 & H2 & H3 & H4);
+    cbn in H0, H1, H2, H3, H4;
+    injection H0 as <-; injection H1 as <-; injection H2 as <-; injection H3 as <-; injection H4 as <-
+  end.
+
+(* for EVERY prior state of the cursor: if the pipeline returns (description, R) then the object after
+   execute(q, p) is the one of the model's step [Execute R] - rows R, rowcount len R, position 0, arraysize and
+   connection untouched - with the new description, and the call returns the cursor itself *)
+Theorem execute_src : forall K ctx d0 (c : cur pv) (q p d : pv) (R : list pv),
+  exec_refs_ok K ->
+  pipeline K ctx q p = Ok (PTuple [d; PList R]) ->
+  call_method call_ref prim cursor_execute (obj ctx d0 c) [q; p] =
+  Ok (obj ctx d (fst (step pv c (Execute R))), PSelf).
+Proof.
+  intros K ctx d0 [r ps n a it] q p d R HK H. refs_known HK. unfold pipeline in H.
+  cbn -[do_call]. cbn -[do_call] in H.
+  destruct (do_call call_ref (PRef 1) [q; PRef 0]) as [isn| |]; cbn -[do_call] in *; try discriminate.
+  destruct (pv_truthy isn) as [[|]| |]; cbn -[do_call] in *; try discriminate.
+  - destruct (do_call call_ref (PRef 3) [ctx; q; p]) as [cq| |]; cbn -[do_call] in *; try discriminate.
+    rewrite H. reflexivity.
+  - destruct (do_call call_ref (PRef 2) [q]) as [ast| |]; cbn -[do_call] in *; try discriminate.
+    destruct (do_call call_ref (PRef 3) [ctx; ast; p]) as [cq| |]; cbn -[do_call] in *; try discriminate.
+    rewrite H. reflexivity.
+Qed.
+
+(* an exception raised by any stage of the pipeline is the exception of execute (every attribute write comes
+   after the last call of the pipeline in the translated body) *)
+Theorem execute_raises_src : forall K ctx d0 (c : cur pv) (q p : pv) (k : Z),
+  exec_refs_ok K ->
+  pipeline K ctx q p = Exc k ->
+  call_method call_ref prim cursor_execute (obj ctx d0 c) [q; p] = Exc k.
+Proof.
+  intros K ctx d0 [r ps n a it] q p k HK H. refs_known HK. unfold pipeline in H.
+  cbn -[do_call]. cbn -[do_call] in H.
+  destruct (do_call call_ref (PRef 1) [q; PRef 0]) as [isn| |]; cbn -[do_call] in *; try discriminate; try (injection H as ->; reflexivity).
+  destruct (pv_truthy isn) as [[|]| |]; cbn -[do_call] in *; try discriminate; try (injection H as ->; reflexivity).
+  - destruct (do_call call_ref (PRef 3) [ctx; q; p]) as [cq| |]; cbn -[do_call] in *; try discriminate; try (injection H as ->; reflexivity).
+    rewrite H. reflexivity.
+  - destruct (do_call call_ref (PRef 2) [q]) as [ast| |]; cbn -[do_call] in *; try discriminate; try (injection H as ->; reflexivity).
+    destruct (do_call call_ref (PRef 3) [ctx; ast; p]) as [cq| |]; cbn -[do_call] in *; try discriminate; try (injection H as ->; reflexivity).
+    rewrite H. reflexivity.
+Qed.
+
+
+(* ---- Column: a 7-item sequence.  The class attribute _vars is a tuple of operator.attrgetter objects (opaque
+   callables ks); Gen.SrcCursor.column_vars lists, from the live class, the attribute each of them reads together
+   with the translated body of that property.  [getters_ok]: calling the j-th getter on the object is calling the
+   j-th property (what operator.attrgetter means). *)
+Definition cflds (n t : pv) (ks : list nat) : env :=
+  [("_vars", PTuple (map PRef ks)); ("_name", n); ("_type", t)].
+
+Theorem column_init_src : forall n t ks,
+  call_method call_ref prim column_init [("_vars", PTuple (map PRef ks))] [n; t] = Ok (cflds n t ks, PNone).
+Proof. reflexivity. Qed.
+
+Theorem column_len_src : forall flds,
+  call_method call_ref prim column_len flds [] = Ok (flds, PInt (Z.of_nat (length col_items))).
+Proof. reflexivity. Qed.
+
+Definition getter_is (flds : env) (k : nat) (nf : string * fdef) : Prop :=
+  call_method call_ref prim (snd nf) flds [] = bind (do_call call_ref (PRef k) [PSelf]) (fun v => Ok (flds, v)).
+Definition getters_ok (flds : env) (ks : list nat) : Prop := Forall2 (getter_is flds) ks column_vars.
+
+Lemma index_at_oob (l : list pv) i :
+  i < - Z.of_nat (length l) \/ Z.of_nat (length l) <= i -> index_at l i = Exc IndexError.
+Proof.
+  intros H. unfold index_at.
+  destruct (Z.ltb_spec i 0);
+    match goal with |- context [(?a <? 0) || (?b <=? ?c)] =>
+      destruct (Z.ltb_spec a 0), (Z.leb_spec b c) end; cbn; try reflexivity; lia.
+Qed.
+
+Lemma py_index_oob {A} (l : list A) i :
+  i < - Z.of_nat (length l) \/ Z.of_nat (length l) <= i -> py_index l i = None.
+Proof.
+  intros H. unfold py_index.
+  destruct (Z.ltb_spec i (- Z.of_nat (length l))), (Z.leb_spec (Z.of_nat (length l)) i); cbn; try reflexivity; lia.
+Qed.
+
+(* column[i] for an integer i: IndexError outside -7..6, else the name, hash(type) or None exactly as the model's
+   py_index over col_items says *)
+Theorem column_getitem_src : forall kI kS kH n t ks i,
+  ref_of refs "builtins.isinstance" = Some kI -> ref_of refs "builtins.slice" = Some kS ->
+  ref_of refs "builtins.hash" = Some kH ->
+  call_ref kI [PInt i; PRef kS] = PBool false ->            (* an int is not a slice *)
+  getters_ok (cflds n t ks) ks ->
+  call_method call_ref prim column_getitem (cflds n t ks) [PInt i] =
+  match py_index col_items i with
+  | None => Exc IndexError
+  | Some IName => Ok (cflds n t ks, n)
+  | Some ICode => bind (do_call call_ref (PRef kH) [t]) (fun h => Ok (cflds n t ks, h))
+  | Some INull => Ok (cflds n t ks, PNone)
+  end.
+Proof.
+  intros kI kS kH n t ks i HI HS HH Hint Hg.
+  cbn in HI, HS, HH. injection HI as <-. injection HS as <-. injection HH as <-.
+  unfold getters_ok, column_vars in Hg.
+  repeat match goal with H : Forall2 _ _ (_ :: _) |- _ => inversion H; clear H; subst end.
+  match goal with H : Forall2 _ _ [] |- _ => inversion H; clear H; subst end.
+  unfold getter_is in *. cbn -[do_call] in *|-.
+  remember (do_call call_ref (PRef 7) [t]) as rh eqn:Eh in *.
+  repeat match goal with H : _ = bind (do_call call_ref (PRef ?k) [PSelf]) _ |- _ =>
+    let r := fresh "r" in let E := fresh "E" in
+    remember (do_call call_ref (PRef k) [PSelf]) as r eqn:E in *
+  end.
+  cbn -[index_at do_call]. unfold do_call at 1. rewrite Hint. cbn -[index_at do_call].
+  assert (Hc : i < -7 \/ 7 <= i \/ i = -7 \/ i = -6 \/ i = -5 \/ i = -4 \/ i = -3 \/ i = -2 \/ i = -1 \/
+               i = 0 \/ i = 1 \/ i = 2 \/ i = 3 \/ i = 4 \/ i = 5 \/ i = 6) by lia.
+  destruct Hc as [Hc|[Hc|Hc]].
+  - rewrite index_at_oob, py_index_oob by (cbn; rewrite ?map_length; cbn; lia). reflexivity.
+  - rewrite index_at_oob, py_index_oob by (cbn; rewrite ?map_length; cbn; lia). reflexivity.
+  - repeat (destruct Hc as [->|Hc]); try subst i; cbn -[do_call Pos.to_nat];
+      repeat match goal with |- context [Pos.to_nat ?p] =>
+        let v := eval compute in (Pos.to_nat p) in change (Pos.to_nat p) with v end;
+      cbn -[do_call];
+      repeat match goal with E : ?r = do_call call_ref (PRef ?k) ?a |- context [do_call call_ref (PRef ?k) ?a] =>
+        rewrite <- E end;
+      repeat match goal with |- context [bind ?r _] => is_var r; destruct r; cbn in * end;
+      congruence.
+Qed.
 
 End Tie.
